@@ -25,7 +25,7 @@ def ps_axioms(ctx, name="x"):
 class Lemmas(Family):
     name = "lemma"
     qualname = "vf.proofs.lemmas:Lemmas"
-    serves = ["C01", "C02", "C03", "C04", "C05", "C06", "C07", "C08", "C09", "C11", "C12", "C14", "C15", "C16", "C19"]
+    serves = ["C01", "C02", "C03", "C04", "C05", "C06", "C07", "C08", "C09", "C11", "C12", "C14", "C15", "C16", "C17", "C19"]
     configs = ["int64"]
 
     def kinds(self):
